@@ -139,7 +139,7 @@ def compare(case, m, els, start, dt, steps, grid):
                 return "%s(%r) = %r, explicit Euler gives %r" % (name, t, g, w)
     return None
 
-case = {'start': 0.0, 'dt': 1.0, 'steps': 8, 'elements': [('constant', 'c1', 3.0), ('constant', 'c2', 1.0), ('converter', 'v0', 'T'), ('converter', 'v1', '((c2 + v0) - (T - DT))'), ('converter', 'v2', '0.5'), ('flow', 'f0', '(v0 + F_delay(v1, 2.0, 5.0))'), ('stock', 's0', (-3.0, [], ['f0'], None))], 'dt2': 0.5}
+case = {'start': 1.0, 'dt': 1.0, 'steps': 8, 'elements': [('constant', 'c1', 0.5), ('constant', 'c2', 1.0), ('converter', 'v0', '(F_min(2.0, (-1.5)) + F_lookup((-1.5)))'), ('biflow', 'f0', '(c1 * T)'), ('biflow', 'f1', 'v0'), ('stock', 's0', (-3.0, ['f0', 'f1'], [], '(DT + T)')), ('stock', 's1', (-3.0, ['f0', 'f1'], [], 'F_delay(v0, 2.0, (-1.0))'))], 'dt2': None}
 bad = run(case)
 print("model:", case)
 print("FAIL: " + bad if bad else "PASS")
